@@ -547,7 +547,7 @@ func checkC05(c *Ctx) {
 		}
 		if len(fl) > 0 {
 			c.AddViolation(Violation{Predicate: strings.Join(fl, ","), Spec: "BigJudge (ObjGraphBig oracle)", Kind: "bigscan",
-				Input: map[string]interface{}{"case": byID[id].Case}, Observed: map[string]interface{}{"verdict": v, "stderr": byID[id].Stderr}})
+				Input: map[string]interface{}{"case": byID[id].Case, "high_threshold": strings.HasSuffix(id, "@1e30")}, Observed: map[string]interface{}{"verdict": v, "stderr": byID[id].Stderr}})
 		}
 	}
 	c.Sample(map[string]interface{}{"kind": "full-width git bombs (depth, breadth, leaf kind, blob size)", "plan": plan[:min(len(plan), 8)]})
@@ -747,6 +747,7 @@ func replayBigScan(c *Ctx, raw json.RawMessage) bool {
 	var rp struct {
 		Input struct {
 			Case cases.ScanCase `json:"case"`
+			High bool           `json:"high_threshold"`
 		} `json:"input"`
 		Predicate string `json:"predicate"`
 	}
@@ -756,7 +757,11 @@ func replayBigScan(c *Ctx, raw json.RawMessage) bool {
 	sub.Ev.Extra = map[string]interface{}{}
 	sub.Scratch, _ = mkScratch(c.Scratch)
 	env := newScanEnv(sub, true, false)
-	r, err := env.runCLI(rp.Input.Case, cliOpt{Formats: true, Progress: true})
+	opt := cliOpt{Formats: true, Progress: true}
+	if rp.Input.High {
+		opt = cliOpt{Formats: true, NoTrace: true, TableArgs: []string{"--threshold=1e30"}}
+	}
+	r, err := env.runCLI(rp.Input.Case, opt)
 	if err != nil {
 		Infra("replay: %v", err)
 	}
